@@ -1102,6 +1102,8 @@ class Interp:
             return list(it.items)
         if isinstance(it, models.SRange):
             return it.materialise(self)
+        if isinstance(it, models.LazySplit):
+            return list(it.all())
         if isinstance(it, GenObj):
             raise Unsupported("iteration over a generator object")
         if isinstance(it, SObj):
